@@ -30,6 +30,9 @@ type Case struct {
 	// Via "cli": (no runs) the tree is analysed by `coca analysis -p <dir>` as a separate process and identify.json /
 	// deps.json are read back, instead of calling the two apps in-process
 	Via string `json:"via"`
+	// LongLine: the first line of every file that ends in ';' (package / import) carries a trailing comment of 70 000
+	// characters ("any layout/comments"): no line or column of any declaration moves
+	LongLine bool `json:"longLine"`
 }
 
 type KVObs struct {
@@ -158,6 +161,11 @@ func one(raw json.RawMessage) interface{} {
 	paths := make([]string, len(c.Files))
 	for i, f := range c.Files {
 		text, facts := javagen.Render(f, c.Layout)
+		if c.LongLine {
+			if k := strings.Index(text, ";\n"); k >= 0 && !strings.Contains(text[:k], "/*") {
+				text = text[:k+1] + " // " + strings.Repeat("long line ", 7000) + text[k+1:]
+			}
+		}
 		p := filepath.Join(root, filepath.FromSlash(facts.RelPath))
 		os.MkdirAll(filepath.Dir(p), 0o755)
 		if err := os.WriteFile(p, []byte(text), 0o644); err != nil {
